@@ -216,6 +216,10 @@ type tr struct {
 	hasRes bool              // result uses GoRes
 	nres   int
 	resErr bool
+	// Go source text of every NON-CONSTANT divisor of a `/` or `%` in the function. Go panics when one is zero;
+	// the Lean rendering (Int.tdiv / Int.tmod / Nat `/` `%`) is total. The list is generated as `<fn>_divisors`
+	// so that the hand models which restore the panic (and their theorems) notice a new one.
+	divisors []string
 }
 
 func (g *genFn) hasParam(n string) bool {
@@ -369,6 +373,18 @@ func (t *tr) expr(e ast.Expr) (string, lty) {
 		opt := at
 		if at.k == kErr || bt.k == kErr {
 			opt = lty{k: kErr}
+		}
+		if x.Op == token.QUO || x.Op == token.REM {
+			if tv, ok := t.info.Types[x.Y]; !ok || tv.Value == nil {
+				d := types.ExprString(x.Y)
+				dup := false
+				for _, e := range t.divisors {
+					dup = dup || e == d
+				}
+				if !dup {
+					t.divisors = append(t.divisors, d)
+				}
+			}
 		}
 		switch x.Op {
 		case token.ADD, token.SUB, token.MUL, token.QUO, token.REM:
@@ -1112,6 +1128,13 @@ func main() {
 				} else {
 					sb.WriteString(fmt.Sprintf("def %s %s : %s :=\n  %s\n\n", fs.Lean, paramList(t.params), rty, body))
 				}
+				if len(t.divisors) > 0 {
+					var qs []string
+					for _, d := range t.divisors {
+						qs = append(qs, fmt.Sprintf("%q", d))
+					}
+					sb.WriteString(fmt.Sprintf("/-- non-constant divisors of `%s` (Go panics with \"integer divide by zero\" when one is 0; the rendering above is total) -/\ndef %s_divisors : List String := [%s]\n\n", fs.Name, fs.Lean, strings.Join(qs, ", ")))
+				}
 				fnObj[p.PkgPath+"."+fs.Name] = &genFn{lean: m.NS + "." + fs.Lean, params: t.params, formal: formal, useRes: t.hasRes}
 				summary = append(summary, fmt.Sprintf("func %s.%s -> %s.%s", fs.Pkg, fs.Name, m.NS, fs.Lean))
 			}
@@ -1180,6 +1203,13 @@ func main() {
 				body, ty := t.expr(target)
 				sort.SliceStable(t.params, func(a, b int) bool { return t.params[a].name < t.params[b].name })
 				sb.WriteString(fmt.Sprintf("def %s %s : %s :=\n  %s\n\n", es.Lean, paramList(t.params), ty.lean(), body))
+				if len(t.divisors) > 0 {
+					var qs []string
+					for _, d := range t.divisors {
+						qs = append(qs, fmt.Sprintf("%q", d))
+					}
+					sb.WriteString(fmt.Sprintf("/-- non-constant divisors of this expression of `%s` (Go panics when one is 0) -/\ndef %s_divisors : List String := [%s]\n\n", es.Func, es.Lean, strings.Join(qs, ", ")))
+				}
 				summary = append(summary, fmt.Sprintf("expr %s.%s#%s -> %s.%s", es.Pkg, es.Func, es.Lean, m.NS, es.Lean))
 			}
 			sb.WriteString("end " + m.NS + "\n")
